@@ -89,6 +89,13 @@ def run(run, replay=None):
         r.dump()
     finally:
         r.stop()
+    # registrations interleaved with conversions of other clients
+    obs, probs = S.concurrent_phase(bindir, dic, wd, "conc", seconds=0.5, clients=4, registrations=40 if thorough else 15,
+                                    env={"CHOKAN_VERIF_DELAY_CONV_LOCK2": "2"})
+    stats["concurrent_registrations"] = obs["registrations"]
+    for kind, what in probs[:1]:
+        fails.append((kind, {"kind": kind, "phase": "concurrent"},
+                      {"history": "RegisterWord while 4 other connections convert and confirm", "result": what, "registrations_applied": obs["registrations"]}))
     dis2 = S.compare_with_model(run, runners)
     run.cov["server_model_disagreements"] = len(dis2)
     seen = set()
